@@ -434,6 +434,51 @@ def export_models(mb: ModelBuilder, ops: Iterable[str], mixed: bool = True) -> l
     return out
 
 
+def export_interactions(mb: ModelBuilder, ops: Iterable[str], cardinal: bool = True, mutex: bool = True,
+                        ) -> list[tuple[str, str, AObj, str]]:
+    """Small models for the export checks in which a constraint and the tree interact, or two levels of a constraint do:
+    (group, key, model, description). `relatives`: a constraint between a feature and its own child / parent / sibling,
+    per kind of the relation that joins them (a writer that drops or rewrites constraints which 'restate the tree' must
+    know which relations force what); `polarity`: each operator over plain and negated operands, and negated;
+    `double-negation`: an operator over a doubly negated operation of another operator (a writer that cancels negations
+    must keep the grouping)."""
+    n, o = mb.node, mb.op
+    ops = list(ops)
+    out: list[tuple[str, str, AObj, str]] = []
+    kinds = [("mandatory", 1, 1, 1), ("optional", 0, 1, 1), ("or", 1, 2, 2), ("alternative", 1, 1, 2)]
+    if mutex:
+        kinds.append(("mutex", 0, 1, 2))
+    if cardinal:
+        kinds.append(("cardinality", 2, 2, 3))
+    forms = [("parent-requires-child", lambda P, c, s: n(o("REQUIRES"), n(P), n(c))),
+             ("child-requires-parent", lambda P, c, s: n(o("REQUIRES"), n(c), n(P))),
+             ("parent-implies-child", lambda P, c, s: n(o("IMPLIES"), n(P), n(c))),
+             ("not-parent-or-child", lambda P, c, s: n(o("OR"), n(o("NOT"), n(P)), n(c))),
+             ("child-excludes-sibling", lambda P, c, s: n(o("EXCLUDES"), n(c), n(s))),
+             ("child-requires-sibling", lambda P, c, s: n(o("REQUIRES"), n(c), n(s))),
+             ("parent-excludes-child", lambda P, c, s: n(o("EXCLUDES"), n(P), n(c)))]
+    for kname, lo, hi, cnt in kinds:
+        for fname, make in forms:
+            root, par, side = mb.feature("Root"), mb.feature("Par"), mb.feature("Side")
+            mb.relation(root, [par], 0, 1)
+            mb.relation(root, [side], 0, 1)
+            kids = [mb.feature(f"k{j}") for j in range(cnt)]
+            mb.relation(par, kids, lo, hi)
+            sib = kids[1]._f["name"] if cnt > 1 else "Side"
+            out.append(("relatives", f"{kname}:{fname}", mb.model(root, [mb.constraint("c", make("Par", "k0", sib))]),
+                        f"{fname} across a {kname} relation"))
+    for op in ops:
+        for nm, tree in polarity_trees(mb, op):
+            out.append(("polarity", nm, ctc_model(mb, [(nm, tree)]), f"constraint {nm}"))
+    for i, op1 in enumerate(ops):
+        for j, op2 in enumerate(ops):
+            inner = lambda: n(o("NOT"), n(o("NOT"), n(o(op2), n("B"), n("C"))))  # noqa: E731
+            tree = n(o(op1), n("A"), inner()) if (i + j) % 2 else n(o(op1), inner(), n("A"))
+            nm = f"{op1}-over-notnot-{op2}"
+            out.append(("double-negation", nm, ctc_model(mb, [(nm, tree)]), f"{op1} over a doubly negated {op2}"))
+    return out
+
+
 class Codec:
     """Round-trip composition for one writer/reader pair with per-dimension reporting."""
 
@@ -563,7 +608,8 @@ class Codec:
         mb.relation(root, [b], 1, 1)
         mb.relation(root, [c], 0, 1)
         mb.relation(a, [mb.feature(rn("Ga")), mb.feature(rn("Gb"))], 1, 1)
-        m = mb.model(root, [mb.constraint("c0", mb.node(mb.op(op), mb.node(rn("Aa")), mb.node(rn("Cc"))))])
+        m = mb.model(root, [mb.constraint("c0", mb.node(mb.op(op), mb.node(rn("Aa")), mb.node(rn("Cc")))),
+                            mb.constraint("c00", mb.node(mb.op(op), mb.node(rn("Cc")), mb.node(rn("Bb"))))])
 
         def edit(model: AObj) -> None:
             r_ = model._f["root"]
@@ -575,6 +621,8 @@ class Codec:
                 model._f["ctcs"][0]._f["_ast"]._f["root"]._f["right"] = mb.node(rn("Bb"))   # the first constraint edited
             except (KeyError, AttributeError, IndexError, TypeError):
                 pass                                       # (the classes keep the tree elsewhere: the other edits remain)
+            if len(model._f["ctcs"]) > 1:                  # the second constraint gets a new formula through the public setter
+                mb._pin(model._f["ctcs"][1], "ast", mb.ast(mb.node(mb.op("OR"), mb.node(rn("Cc")), mb.node(rn("Aa")))))
             for rel in r_._f["relations"]:
                 for ch in rel._f["children"]:
                     if abstract and ch._f.get("name") == rn("Cc"):
@@ -589,58 +637,7 @@ class Codec:
         return m, edit
 
     def writer_reuse(self, mb: ModelBuilder, rule: str = "REUSE", **kw: Any) -> None:
-        """One writer object used for a model, the model then edited in place through its own API, and the same writer
-        used again (and, separately, pointed at another model): what it writes must be what a fresh writer writes for
-        the model as it is now - a writer that keeps the document it built the first time writes a stale one."""
-        from .absint import reset_global_state
-        ctx, pm = self.ctx, self.pm
-        ci = pm.cls(self.W)
-        tr = pm.method(ci, "transform")
-        for variant in ("edit-in-place", "other-model"):
-            key = f"same-writer-object:{variant}"
-            reset_global_state()
-            model, edit = self.reuse_base(mb, **kw)
-            vfs = VFS()
-            it = new_interp(pm, vfs)
-            if self.wsetup:
-                self.wsetup(it, vfs)
-            try:
-                w = it.eval_call_class(ci, [PATH, model])
-                it.call(tr, [w])
-                first = vfs.files.get(PATH)
-                if variant == "edit-in-place":
-                    edit(model)
-                    target = model
-                else:
-                    target, edit2 = self.reuse_base(mb, **kw)
-                    edit2(target)
-                    holders = [k_ for k_, v_ in w._f.items() if v_ is model]   # the field(s) the constructor put the model in
-                    if not holders:
-                        ctx.info(f"{self.prefix}-{rule}", key, self.wwhere, "the writer object does not hold its model in a field")
-                        continue
-                    try:
-                        for k_ in holders:
-                            it.setattr_obj(w, k_, target)
-                    except (AbsRaise, AbsMutation, AnalysisError):
-                        ctx.info(f"{self.prefix}-{rule}", key, self.wwhere, "the writer does not let its model be replaced")
-                        continue
-                returned = it.call(tr, [w])
-                second = vfs.files.get(PATH)
-            except (AbsRaise, AbsMutation) as exc:
-                ctx.info(f"{self.prefix}-{rule}", key, self.wwhere, f"a writer object used twice raises {exc.what}")
-                continue
-            reset_global_state()
-            indep, edit3 = self.reuse_base(mb, **kw)           # built independently, edited before anything looked at it
-            edit3(indep)
-            fresh = run_writer(pm, self.W, indep, setup=self.wsetup)
-            if fresh["raise"]:
-                continue
-            ctx.check(second == fresh["written"] and same_content(returned, second), f"{self.prefix}-{rule}", key,
-                      self.wwhere, "a writer object used again after the model changed writes the model as it is now",
-                      bad=f"{self.W}: the second transform() of one writer object ({variant}) writes "
-                          f"{'the document of the first call' if second == first else 'another document'} instead of the "
-                          f"one a fresh writer produces for the model as it is now")
-        reset_global_state()
+        writer_reuse_check(self, mb, rule, **kw)
 
     def reader_reuse(self, mb: ModelBuilder, rule: str = "REUSE", **kw: Any) -> None:
         """Histories of reading: (1) a document is read, the caller edits the model it got, and the same document is
@@ -762,3 +759,70 @@ class Codec:
                   bad=f"model read back is not well-formed: {[t for _, t in wf[:2]]}")
         self.last_rt = rt
         return m1
+
+
+
+class WriterOnly:
+    """What writer_reuse_check needs to know about a writer that has no reader (the exports)."""
+
+    def __init__(self, pm: ProgramModel, ctx: Any, writer: str, prefix: str, wsetup: Optional[Callable[..., None]] = None) -> None:
+        from .core import loc
+        self.pm, self.ctx, self.W, self.prefix, self.wsetup = pm, ctx, writer, prefix, wsetup
+        wc = pm.cls(writer)
+        self.wwhere = loc(wc.unit.path, wc.node)
+
+
+def writer_reuse_check(self: Any, mb: ModelBuilder, rule: str = "REUSE", **kw: Any) -> None:
+    """One writer object used for a model, the model then edited in place through its own API, and the same writer
+    used again (and, separately, pointed at another model): what it writes must be what a fresh writer writes for
+    the model as it is now - a writer that keeps the document it built the first time writes a stale one."""
+    from .absint import reset_global_state
+    ctx, pm = self.ctx, self.pm
+    ci = pm.cls(self.W)
+    tr = pm.method(ci, "transform")
+    for variant in ("edit-in-place", "other-model"):
+        key = f"same-writer-object:{variant}"
+        reset_global_state()
+        model, edit = Codec.reuse_base(self, mb, **kw)
+        vfs = VFS()
+        it = new_interp(pm, vfs)
+        if self.wsetup:
+            self.wsetup(it, vfs)
+        try:
+            w = it.eval_call_class(ci, [PATH, model])
+            it.call(tr, [w])
+            first = vfs.files.get(PATH)
+            if variant == "edit-in-place":
+                edit(model)
+                target = model
+            else:
+                target, edit2 = Codec.reuse_base(self, mb, **kw)
+                edit2(target)
+                holders = [k_ for k_, v_ in w._f.items() if v_ is model]   # the field(s) the constructor put the model in
+                if not holders:
+                    ctx.info(f"{self.prefix}-{rule}", key, self.wwhere, "the writer object does not hold its model in a field")
+                    continue
+                try:
+                    for k_ in holders:
+                        it.setattr_obj(w, k_, target)
+                except (AbsRaise, AbsMutation, AnalysisError):
+                    ctx.info(f"{self.prefix}-{rule}", key, self.wwhere, "the writer does not let its model be replaced")
+                    continue
+            returned = it.call(tr, [w])
+            second = vfs.files.get(PATH)
+        except (AbsRaise, AbsMutation) as exc:
+            ctx.info(f"{self.prefix}-{rule}", key, self.wwhere, f"a writer object used twice raises {exc.what}")
+            continue
+        reset_global_state()
+        indep, edit3 = Codec.reuse_base(self, mb, **kw)           # built independently, edited before anything looked at it
+        edit3(indep)
+        fresh = run_writer(pm, self.W, indep, setup=self.wsetup)
+        if fresh["raise"]:
+            continue
+        ctx.check(second == fresh["written"] and same_content(returned, second), f"{self.prefix}-{rule}", key,
+                  self.wwhere, "a writer object used again after the model changed writes the model as it is now",
+                  bad=f"{self.W}: the second transform() of one writer object ({variant}) writes "
+                      f"{'the document of the first call' if second == first else 'another document'} instead of the "
+                      f"one a fresh writer produces for the model as it is now")
+    reset_global_state()
+
